@@ -43,6 +43,11 @@ class Cfg:
         from . import absval
         return absval.sens_reach_from_edge(self, du, edge, blocked_nodes, blocked_edges)
 
+    def after(self, edge, blocked_nodes=(), blocked_edges=()):
+        """reach_sens with this graph's own def/use table: what can execute after `edge` (src,label,dst) was taken"""
+        if getattr(self, "_du", None) is None: self._du = DefUse(self.body)
+        return self.reach_sens(self._du, tuple(edge), blocked_nodes, blocked_edges)
+
     def reach_from_edges(self, edges, blocked_nodes=(), blocked_edges=()):
         """blocks reachable after taking one of the given edges [(src,label,dst)]"""
         starts = [e[-1] for e in edges]
